@@ -5,7 +5,7 @@ from __future__ import annotations
 import ast
 
 from ..source import AnalysisError, norm_text
-from .common import calls_in, walk_no_nested
+from .common import def_map, expand, calls_in, walk_no_nested
 
 HASHABLE = {'int', 'float', 'str', 'bool', 'None', 'bytes', 'complex'}
 
@@ -46,9 +46,21 @@ def check_decorator(ctx):
             decs = [norm_text(d) for d in n.decorator_list]
             if any('lru_cache' in d or d.endswith('.cache') for d in decs):
                 inner_cached = n
+    cached_name = inner_cached.name if inner_cached is not None else None
     if inner_cached is None:
-        ctx.ob('R1', fi, fi.node.name, False, 'no functools.lru_cache-decorated inner function: results are not memoised '
-                                              'through the weak-key wrapper')
+        # call form: cached = functools.lru_cache(...)(inner)
+        inner_defs = {n.name: n for n in ast.walk(fi.node) if isinstance(n, ast.FunctionDef) and n is not fi.node}
+        for n in ast.walk(fi.node):
+            if isinstance(n, ast.Assign) and len(n.targets) == 1 and isinstance(n.targets[0], ast.Name) and isinstance(n.value, ast.Call) \
+                    and isinstance(n.value.func, ast.Call) and 'lru_cache' in norm_text(n.value.func.func) and len(n.value.args) == 1 \
+                    and isinstance(n.value.args[0], ast.Name) and n.value.args[0].id in inner_defs:
+                inner_cached = inner_defs[n.value.args[0].id]
+                cached_name = n.targets[0].id
+    if inner_cached is None:
+        any_lru = any('lru_cache' in norm_text(n) for n in ast.walk(fi.node) if isinstance(n, (ast.Attribute, ast.Name)))
+        ctx.ob('R1', fi, fi.node.name, None if any_lru else False, 'no functools.lru_cache-decorated inner function: results are not memoised '
+                                                                     'through the weak-key wrapper' if not any_lru else
+               'use of functools.lru_cache in the wrapper not recognised')
         return
     # (a) the cached function uses its first parameter only by calling it
     a = inner_cached.args
@@ -70,7 +82,7 @@ def check_decorator(ctx):
     for n in ast.walk(fi.node):
         if isinstance(n, ast.FunctionDef) and n is not inner_cached and n is not fi.node:
             for c in calls_in(n):
-                if isinstance(c.func, ast.Name) and c.func.id == inner_cached.name:
+                if isinstance(c.func, ast.Name) and c.func.id == cached_name:
                     callers.append((n, c))
     if not callers:
         ctx.ob('R1', fi, inner_cached.name, False, 'the cached function is never called by the wrapper')
@@ -82,7 +94,7 @@ def check_decorator(ctx):
         if not c.args:
             ok, detail = False, 'cached function called without a key for self'
         else:
-            a0 = c.args[0]
+            a0 = expand(c.args[0], def_map(fn))
             if isinstance(a0, ast.Call):
                 callee = norm_text(a0.func)
                 head = callee.split('.')[0]
@@ -99,7 +111,7 @@ def check_decorator(ctx):
                 ok, detail = None, f'unrecognised key expression {norm_text(a0)}'
         ctx.ob('R1', fi, c, ok, detail)
     # (c) the wrapped function receives the dereferenced object first
-    inner_calls = [c for c in calls_in(inner_cached) if isinstance(c.func, ast.Name)]
+    inner_calls = [expand(c, def_map(inner_cached)) for c in calls_in(inner_cached) if isinstance(c.func, ast.Name)]
     ok = any(c.args and isinstance(c.args[0], ast.Call) and isinstance(c.args[0].func, ast.Name) and c.args[0].func.id == first
              and len(c.args) >= 1 and any(isinstance(x, ast.Starred) for x in c.args[1:]) and any(k.arg is None for k in c.keywords)
              for c in inner_calls)
